@@ -238,6 +238,15 @@ def run(ctx):
                 con.close()
     # (iii) binding on SQLite
     gen_cases = gen_cases + [relgen.make_case(rng, **RICH) for rng in [random.Random(7070)] for _ in range(120 if quick else 1200)]
+    # directed shapes (seed independent): joins over all columns (INTERSECT / EXCEPT / DISTINCT rewrites), one let-table read
+    # several times incl. `append <let>` first, inline join sides, group pipelines ending in select / derive
+    directed = relgen.setop_cases(SAFE)
+    dia = relgen.diamond_cases(SAFE, seed=71)
+    directed += random.Random(72).sample(dia, 250) if quick else dia
+    directed += relgen.systematic_cases(2, dict(SAFE, force_shape=["join_inline", "group_inner", "append_let"]), seed=73,
+                                        kinds=["select", "derive", "filter", "sort", "take", "aggregate", "group_take", "join", "append"])
+    ctx.coverage_extra["directed_bind_cases"] = len(directed)
+    gen_cases = directed + gen_cases
     for target in ("sql.sqlite", "sql.generic"):
         res = relcheck.run_cases(gen_cases, target)
         for c, r in zip(gen_cases, res):
